@@ -324,6 +324,38 @@ def check_foreign(ctx, seed, idx):
 
 # ------------------------------------------------------------------ size limit
 
+def failed_reserialisation(ctx):
+    """A received message whose names are invalid parses (the parser does not validate names) but cannot be serialised
+    again - the bus meets this whenever a peer sends such a message through it.  The refusal must leave the process'
+    own serial numbering alone: messages constructed afterwards still get fresh serials."""
+    for foreign_serial in (2, 7, 1, 2 ** 32 - 1, 3):
+        for field, bad in (('path', '/org/a~c'), ('interface', 'no dots'), ('member', 'a.b'), ('destination', '..')):
+            fields = {'path': '/a', 'member': 'M', 'interface': 'a.b', 'destination': 'a.b'}
+            fields[field] = bad
+            raw = RM.build(RM.METHOD_CALL, foreign_serial, fields, 's', ['x'], foreign_serial % 2 == 0)
+            ctx.count('evaluations')
+            try:
+                m = MSG.parseMessage(raw, [])
+            except Exception:
+                ctx.count('invalid_names_refused_by_parser')
+                continue
+            try:
+                m._marshal(False, rawBody=m.rawBody)
+                ctx.count('invalid_names_reserialised')
+            except Exception:
+                ctx.count('reserialisations_refused')
+            for _ in range(3):
+                fresh = MSG.SignalMessage('/a', 'M', 'a.b').serial
+                if fresh in _serials or not isinstance(fresh, int) or fresh == 0 or fresh >= 2 ** 32:
+                    ctx.report('serial-not-fresh', 'after a received message (serial %d, invalid %s) could not be serialised '
+                               'again, a newly constructed message was given serial %r, which %s' % (
+                                   foreign_serial, field, fresh, 'was handed out before' if fresh in _serials else 'is invalid'),
+                               {'foreign_serial': foreign_serial, 'field': field, 'value': bad, 'serial': fresh},
+                               {'kind': 'failed-reserialisation'})
+                    return
+                _serials.add(fresh)
+
+
 def size_probes(ctx):
     base = MSG.MethodReturnMessage(1, body=[''], signature='s')
     overhead = len(base.rawMessage)
@@ -425,6 +457,7 @@ def run(ctx):
         raw, exp, body, info = foreign_case(ctx.seed, i)
         ctx.sample({'foreign_message_hex': raw.hex()[:240], 'expected': exp, 'info': info})
     if si == 0:
+        failed_reserialisation(ctx)
         name_probes(ctx)
         size_probes(ctx)
         # serial freshness over a long construction history (a counter that wraps early shows only here)
